@@ -909,12 +909,20 @@ private:
 
   struct AllUnlocker {
     void operator()(cuckoohash_map *map) const {
-      for (auto it = first_locked; it != map->all_locks_.end(); ++it) {
+      // Only the lock arrays that exist now were locked by us. Remember the
+      // last one before releasing anything: once our locks are released,
+      // another thread can take them all and append a new (locked) array,
+      // which is not ours to unlock.
+      const auto last_locked = std::prev(map->all_locks_.end());
+      for (auto it = first_locked;; ++it) {
         locks_t &locks = *it;
         for (spinlock &lock : locks) {
           lock.unlock();
         }
         LIBCUCKOO_VERIF_HOOK(LIBCUCKOO_VH_ALL_UNLOCK_END, map, 0, 0);
+        if (it == last_locked) {
+          break;
+        }
       }
     }
 
